@@ -19,7 +19,7 @@ for l in d.splitlines():
 print(d.splitlines()[-1], "distinct bad programs:", len(bad))
 for i in list(model)[:mx]:
     w = recs[i]
-    out = bytes.fromhex(w[8].lstrip("#")).decode()
-    print("=====", i, "source:"); print(bytes.fromhex(w[6].lstrip("#")).decode())
+    out = bytes.fromhex(w[9].lstrip("#")).decode()
+    print("=====", i, "source:"); print(bytes.fromhex(w[7].lstrip("#")).decode())
     print("----- diff (binary -> model)")
     print("".join(difflib.unified_diff(out.splitlines(True), model[i].splitlines(True), "binary", "model", n=1)))
